@@ -5,7 +5,7 @@ import sys
 sys.path.insert(0, os.path.join(os.path.dirname(os.path.abspath(__file__)), "..", "lib"))
 import vlib  # noqa: E402
 
-HARNESSES = ("c17a", "c17b", "c17c")
+HARNESSES = ("c17a", "c17b-seq", "c17b-overflow", "c17b-conc", "c17c-sweeper")
 
 
 def build(race=False):
